@@ -25,7 +25,7 @@ func init() {
 		Doc: "Set/Clear are invoked only by the container filler and the env application; the filler runs only after a successful match and its error is returned", Run: fsm5})
 	register(&Rule{ID: "FSM-6", Props: []string{"C02", "C06", "C12", "C13", "C15", "C19", "C07", "C09"}, Floor: 6,
 		Doc: "fill protocol: Clear once (guarded only by the MultiValued assertion) before the values, Set(v) for every value in order, error returned at once, then ValueSetFromEnv=false and *ValueSetByUser=true", Run: fsm6})
-	register(&Rule{ID: "FSM-7", Props: []string{"C01", "C09", "C02"}, Floor: 3,
+	register(&Rule{ID: "FSM-7", Props: []string{"C01", "C09", "C02", "C19"}, Floor: 3,
 		Doc: "command-line `--`: stripped only while options are not ended, sets the flag, drops exactly the first token; the accept test is made on the vector handed to the matchers", Run: fsm7})
 	register(&Rule{ID: "FSM-8", Props: []string{"C03", "C12"}, Floor: 4,
 		Doc: "recursion progress: every successful Match of a matcher that survives Prepare consumes input (or nothing cuts the recursion)", Run: fsm8})
@@ -1798,9 +1798,21 @@ func fsm5(c *Ctx) {
 				// `err := f(a); if err == nil { err = f(b) }; return err`
 				if len(r.Results) == 1 {
 					if phi, isPhi := r.Results[0].(*ssa.Phi); isPhi {
+						// a refused fill must not be attempted again before the return (a loop that
+						// keeps only the last outcome loses the error)
+						cutNil := map[ir.Edge]bool{}
+						for _, e := range errNilEdges(fn, cv) {
+							cutNil[e] = true
+						}
+						again := false
+						for _, sc := range cv.Block().Succs {
+							if !cutNil[ir.Edge{From: cv.Block(), To: sc}] && ir.Reach(sc, nil, cutNil)[cv.Block()] {
+								again = true
+							}
+						}
 						for i, e := range phi.Edges {
 							p := phi.Block().Preds[i]
-							if e == ssa.Value(cv) && (p == cv.Block() || errIsNonNilAt(cv, p) || cv.Block().Dominates(p)) {
+							if e == ssa.Value(cv) && !again && (p == cv.Block() || errIsNonNilAt(cv, p) || cv.Block().Dominates(p)) {
 								okErr = true
 							}
 						}
@@ -1859,6 +1871,9 @@ func fsm5(c *Ctx) {
 						}
 						if ld, isLd := arr.(*ssa.UnOp); isLd && ld.Op == token.MUL {
 							arr = ld.X // the array read as a value
+						}
+						if sl, isSl := arr.(*ssa.Slice); isSl && sl.Low == nil && sl.High == nil {
+							arr = sl.X // a slice literal: the whole of its backing array
 						}
 						if arr != nil {
 							if al, isAl := arr.(*ssa.Alloc); isAl {
